@@ -673,6 +673,11 @@ def encoding(ctx):
                 neg = False
                 while r2[0] == "un" and r2[1] == "Not":
                     r2, neg = look(r2[2]), not neg
+                if r2[0] == "field" and look(r2[1]) == ("arg", 1) and str(r2[3]).isdigit() and int(r2[3]) < len(clo[2]):
+                    # a value computed before the search and captured by the predicate (`let mentioned = text.contains("identity")`)
+                    r2 = look(clo[2][int(r2[3])])
+                    while r2[0] == "un" and r2[1] == "Not":
+                        r2, neg = look(r2[2]), not neg
                 idq = cond2(lambda t: is_call(t, "eq") and const_of(t[2][1]) == "identity;q=0", True)
                 starq = cond2(lambda t: is_call(t, "eq") and const_of(t[2][1]) == "*;q=0", True)
                 for (t, c, _bb) in l2.conds:
